@@ -140,6 +140,16 @@ def correspondence(ctx):
                 offs.update(o for o in ((1 << k) - 1, 1 << k, (1 << k) + 1) if 0 <= o < L)
                 k += 1
             offs.update(rng.randrange(L) for _ in range(40 if ctx.thorough else 12))
+            # every place where a further gzip member / deflate block boundary could sit: a torn multi-member file
+            # that ends exactly there is itself a valid gzip file. Candidates: every occurrence of the gzip magic
+            # 1f 8b 08 (and the byte before/after), and every offset at which the bytes so far inflate without error.
+            pos = G.find(b"\x1f\x8b\x08", 1)
+            nsig = 0
+            while pos != -1 and nsig < 64:
+                offs.update(o for o in (pos - 1, pos, pos + 1) if 0 < o < L)
+                nsig += 1
+                pos = G.find(b"\x1f\x8b\x08", pos + 1)
+            ctx.count("files/tribc-large/gzip-signatures", nsig)
             for n in sorted(offs):
                 d = read_prefix(pathc, G, n) if n % 2 else read_prefix(pathc, G, n, compress=True)
                 ctx.case(digest=None, nontrivial=False)
